@@ -90,8 +90,9 @@ def gen_case(rng, sb):
     return {'ranks': ranks, 'args': args, 'env': env, 'pre': pre, 'post': post, 'pre_launch': prel, 'post_launch': postl,
             'codes': sorted(codes.items()), 'exe_codes': exe_codes, 'gpr': gpr, 'gpu_type': gpu_type, 'gpus': gpus,
             'omp': rng.choice([None, None, rng.choice([1, 2, 4])]), 'platform': rng.random() < 0.15,
-            'stdout': rng.choice([None, None, 'out.txt', 'my out.txt', "o'q.out", 'a;b.out']),
-            'stderr': rng.choice([None, None, 'err.txt', 'my err.txt']),
+            # unset / relative to the task sandbox / absolute ('ABS:' is replaced by a scratch directory), independently
+            'stdout': rng.choice([None, None, 'out.txt', 'my out.txt', "o'q.out", 'a;b.out', 'ABS:abs.out', 'ABS:abs o.txt']),
+            'stderr': rng.choice([None, None, 'err.txt', 'my err.txt', 'ABS:abs.err', 'ABS:abs e.txt']),
             'sandbox': sandbox, 'name': rng.choice([None, None, 'my.task']), 'seq': rng.randrange(10 ** 6), 'expansion': expansion}
 
 
@@ -105,8 +106,12 @@ def build(rp, sb, case, uid):
          'post_launch': ['%s %d %d' % (sb.cmd, i, codes[i]) for i in case['post_launch']],
          'gpus_per_rank': case['gpr'], 'gpu_type': case['gpu_type']}
     if case['omp']:    d.update({'threading_type': 'OpenMP', 'cores_per_rank': case['omp']})
-    if case['stdout']: d['stdout'] = case['stdout']
-    if case['stderr']: d['stderr'] = case['stderr']
+    for key in ('stdout', 'stderr'):
+        v = case[key]
+        if v and v.startswith('ABS:'):
+            os.makedirs('%s/abs out/%s' % (sb.root, uid), exist_ok=True)
+            v = '%s/abs out/%s/%s' % (sb.root, uid, v[4:])
+        if v: d[key] = v
     if case['name']:   d['name'] = case['name']
     sandbox = None
     if case['sandbox'] == 'sibling':   sandbox = sb.psbox + '_data/' + uid
@@ -270,6 +275,9 @@ def monitor(sb, case, task, res, pwd):
                 bad.append(('launch:stdout-not-in-described-file', '%r in %s' % (res['stdout_file'], task.get('stdout_file'))))
         if res['stderr_file'] is None or not all(x in res['stderr_file'] for x in se.splitlines()):
             bad.append(('launch:stderr-not-in-described-file', '%r in %s' % (res['stderr_file'], task.get('stderr_file'))))
+    for key in ('stdout_file', 'stderr_file'):
+        if not res.get(key + '_recorded', True):
+            bad.append(('launch:%s-recorded-differs-from-described' % key, 'task[%r] = %r' % (key, task.get(key))))
     return bad
 
 
@@ -401,6 +409,8 @@ CORPUS = [
     _mk(env={'X': '\u00e9&]\n\n[', 'Y': 'a\nexport Z=1', 'Z': ''}),             # values with blank lines / looking like export lines                                   # trailing backslash in a value
     _mk(sandbox='sibling'),                                        # sandbox sharing a string prefix with the pilot sandbox
     _mk(stdout='my out.txt', stderr='my err.txt'),                 # stdout/stderr names with spaces
+    _mk(stdout='out.txt', stderr='ABS:abs.err'),                   # one relative, one absolute
+    _mk(stdout='ABS:abs.out', stderr='err.txt'),
     _mk(args=['a b', '', "x'y", 'q"r', '*', 'back\\slash', 'new\nline', 'ü']),
     _mk(ranks=2, exe_codes=[0, 0], pre=[{'all': 1}, {'per': [[0, [2]], [1, [3, 4]]]}], post=[{'all': 5}],
         codes=[[1, 0], [2, 0], [3, 0], [4, 3], [5, 0]]),
